@@ -25,10 +25,10 @@ import ast
 
 from .. import q
 from ..cfg import explore, must_facts, canon_fact, holds
-from ..rules import call_sites, node_calls, require_before, tainted_names, mentions
+from ..rules import call_sites, node_calls, require_before, tainted_names, mentions, event_facts
 from ..mutate import mutate, remove_stmts, replace_expr, replace_stmt, parse_stmt, parse_expr
 from ..model import AnalysisError
-from ..x_peval import STOP, UNK, peval, pfold, prep, partition, predicates_on, try_fold
+from ..x_peval import STOP, UNK, make_resolver, pure_self_methods, peval, pfold, prep, partition, predicates_on, try_fold
 
 TECHNIQUE = "partial evaluation of the CFG over the partitioned (version, method, status, Content-Length, disconnect) space + guard-dominance/typestate on the length guard"
 EXPLANATION = (
@@ -78,6 +78,47 @@ def class_label(cls):
     if len(cls) == hi - lo + 1:
         return "%d-%d" % (lo, hi)
     return "%d..%d(%d codes)" % (lo, hi, len(cls))
+
+
+def callee_literals(repo, relpath, clsname, fi, depth=2):
+    """Integer literals (status-code range) in the helpers ``fi`` calls (methods of
+    its class / functions of its module), so that the status partition also
+    separates values a helper predicate distinguishes."""
+    out = set()
+    seen = set()
+    work = [(fi, 0)]
+    while work:
+        f, d = work.pop()
+        if f.qualname in seen:
+            continue
+        seen.add(f.qualname)
+        if f is not fi:
+            out |= {v for v in q.literal_ints(f.node) if 99 <= v <= 600}
+        if d >= depth:
+            continue
+        for c in q.calls(f.node):
+            g = None
+            if isinstance(c.func, ast.Attribute) and q.dotted(c.func.value) == "self" and repo.has_func(relpath, "%s.%s" % (clsname, c.func.attr)):
+                g = repo.func(relpath, "%s.%s" % (clsname, c.func.attr))
+            elif isinstance(c.func, ast.Name) and repo.has_func(relpath, c.func.id):
+                g = repo.func(relpath, c.func.id)
+            if g is not None:
+                work.append((g, d + 1))
+    return out
+
+
+def refine_by_literals(classes, lits):
+    if not lits:
+        return classes
+    cuts = sorted(lits)
+    out = []
+    for c in classes:
+        sub = {}
+        for x in c:
+            key = ("=", x) if x in lits else ("<", sum(1 for v in cuts if v < x))
+            sub.setdefault(key, []).append(x)
+        out.extend(sub.values())
+    return out
 
 
 # ---------------------------------------------------------------------------
@@ -185,7 +226,7 @@ def check_write_headers(ck):
                 for x in grp:
                     sub.setdefault(bodiless_group("GET", x), []).append(x)
                 refined.extend(sub.values())
-    classes = refined
+    classes = refine_by_literals(refined, callee_literals(ck.repo, H1, CONN, fi))
     ck.note("write_headers: status domain 100..599 partitioned into %d classes: %s" % (len(classes), ", ".join(class_label(c) for c in classes)))
     ck.floor("C02.framing", len(classes), 4, "status classes")
 
@@ -199,6 +240,9 @@ def check_write_headers(ck):
     if sw is None or (sw & tracked_attrs):
         raise AnalysisError("_format_chunk may rebind %s; the framing analysis of write_headers does not model that" % sorted((sw or set()) & tracked_attrs or ["<unbounded>"]))
     known = {"_format_chunk": None}
+    for m in pure_self_methods(ck.repo, H1, CONN):
+        known.setdefault(m, None)
+    resolver = make_resolver(ck.repo, H1, CONN)
 
     def hook(n, env):
         if n.kind == "stmt" and isinstance(n.ast, (ast.Assign, ast.AnnAssign)) and ECR in q.assigned_paths(n.ast):
@@ -242,6 +286,7 @@ def check_write_headers(ck):
                             hd: frozenset(["Content-Length"]) if has_cl else frozenset(),
                             CHUNKING: UNK,
                             "@ecr": "unset",
+                            "@resolve": resolver,
                         }
                         def on_edge(n, kind, env, version=version, dof_in=dof_in):
                             if use_pre and kind == "false" and version == "HTTP/1.0" and not dof_in and _keepalive_fact(q.unparse(n.ast)):
@@ -474,6 +519,37 @@ def _mentions_outside_sanitizer(e, tainted, sanitizer) -> bool:
     return any(_mentions_outside_sanitizer(c, tainted, sanitizer) for c in ast.iter_child_nodes(e))
 
 
+def check_fixed_writes(ck):
+    """Fixed protocol bytes written outside the response writer (_read_message):
+    an interim 1xx must not follow a response that was already completed, and
+    server-only status lines must not be written in client mode.  Otherwise the
+    byte stream is no longer 'exactly one response' per request."""
+    fi = ck.func(H1, CONN + "._read_message")
+    facts = must_facts(fi.cfg)
+    n = 0
+    for node, c in call_sites(fi, "self.stream.write"):
+        a = q.arg(c, 0)
+        if not (isinstance(a, ast.Constant) and isinstance(a.value, bytes)):
+            ck.ob("C02.fixed-writes", fi, c, False, "_read_message writes only fixed protocol bytes itself")
+            continue
+        data = a.value
+        if not data.startswith(b"HTTP/1."):
+            ck.ob("C02.fixed-writes", fi, c, False, "fixed bytes written by _read_message are complete status lines")
+            continue
+        n += 1
+        try:
+            code = int(data.split(b" ")[1][:3])
+        except (IndexError, ValueError):
+            raise AnalysisError("cannot read the status code of the fixed response %r" % data)
+        f = facts[node.id]
+        ck.ob("C02.fixed-writes", fi, c, data.endswith(b"\r\n\r\n") and data.count(b"\r\n\r\n") == 1, "a fixed response is a status line plus an empty header block (%r)" % data)
+        ck.ob("C02.fixed-writes", fi, c, holds(f, "self.is_client", False), "status lines are written only in server mode (%d)" % code, construct="fixed %d response not guarded by 'not self.is_client'" % code)
+        if 100 <= code < 200:
+            ck.ob("C02.fixed-writes", fi, c, holds(f, "self._write_finished", False),
+                  "an interim %d response is written only while the final response has not been completed (not self._write_finished)" % code, construct="interim %d response may follow a finished response" % code)
+    ck.floor("C02.fixed-writes", n, 2, "fixed status-line writes in _read_message")
+
+
 # ---------------------------------------------------------------------------
 # D. HTTP1Connection.finish
 
@@ -613,7 +689,9 @@ def _handler_effects(ck):
         if isinstance(cur, frozenset):
             env[HDRS] = cur | {"Content-Type"}
 
+    extra_pure = {m: None for m in pure_self_methods(ck.repo, WEB, RH)}
     return {
+        **extra_pure,
         "set_header": set_header, "add_header": set_header, "clear_header": clear_header, "set_status": set_status,
         "set_etag_header": set_etag, "check_etag_header": None, "_clear_representation_headers": clear_repr, "write": write,
     }, cleared
@@ -654,6 +732,7 @@ def check_handler_finish(ck):
         for x in c:
             sub.setdefault(bodiless_group("GET", x), []).append(x)
         classes.extend(sub.values())
+    classes = refine_by_literals(classes, callee_literals(ck.repo, WEB, RH, fi, depth=1) & {v for v in range(99, 601)})
     ck.note("RequestHandler.finish: status classes " + ", ".join(class_label(c) for c in classes))
     flush_calls = call_sites(fi, "self.flush")
     ck.floor("C02.finish-content-length", len(flush_calls), 1, "self.flush calls in RequestHandler.finish")
@@ -676,7 +755,7 @@ def check_handler_finish(ck):
                 for has_cl in (False, True):
                     del results[:]
                     init = {SC: cls[0], METHOD: method, HW: hw, HDRS: frozenset(["Content-Type", "Content-Length"] if has_cl else ["Content-Type"]),
-                            "self._finished": False, WB: UNK}
+                            "self._finished": False, WB: UNK, "@resolve": make_resolver(ck.repo, WEB, RH)}
                     if chunk:
                         init[chunk] = None
                     eff = dict(effects)
@@ -723,6 +802,96 @@ def check_handler_finish(ck):
     ck.floor("C02.finish-content-length", n, 1, "connection.finish() calls")
 
 
+def check_finish_order(ck):
+    """finish(chunk): the final chunk is buffered before anything is computed
+    from the buffer (ETag, Content-Length) and before the flush; the connection
+    is told the response is complete on every path after the flush."""
+    fi = ck.func(WEB, RH + ".finish")
+    ps = fi.params()
+    if len(ps) < 2:
+        raise AnalysisError("RequestHandler.finish lost its chunk parameter")
+    chunk = ps[1]
+    cfg = fi.cfg
+    writes = {n.id for n, c in call_sites(fi, "self.write") if c.args and q.dotted(c.args[0]) == chunk}
+    ck.ob("C02.finish-order", fi, fi.node, len(writes) >= 1, "finish(chunk) hands the chunk to write()", construct="finish(chunk) never buffers the chunk")
+    none_fact = "%s is None" % chunk
+    users = []
+    for n, c in cfg.find(lambda x: isinstance(x, ast.Call)):
+        if q.is_call(c, "self.flush", "self.set_etag_header", "self.check_etag_header") or (q.is_call(c, "self.set_header") and _const_arg(c, 0) == "Content-Length"):
+            users.append((n, c))
+    for n in cfg.stmt_nodes(lambda n: n.kind in ("stmt", "test") and WB in q.paths_in(n.ast) and not any(n.id == u.id for u, _ in users)):
+        if n.id not in writes:
+            users.append((n, n.ast))
+
+    def transfer(n, val):
+        return True if n.id in writes else val
+
+    seen = explore(cfg, False, transfer, lambda t: t == none_fact, follow_exc=False)
+    k = 0
+    for n, site in users:
+        for facts, wrote in sorted(seen.get(n.id, ()), key=repr):
+            k += 1
+            ck.ob("C02.finish-order", fi, site, wrote or (none_fact, True) in facts, "the chunk passed to finish() is in the buffer before the buffer is hashed, measured or flushed",
+                  construct="buffer used before finish()'s chunk was written: " + q.normalize_construct(site, q.local_names(fi.node))[:100])
+    ck.floor("C02.finish-order", k, 3, "uses of the write buffer in finish")
+    # connection.finish() after the flush on every normal path
+    fl = {n.id for n, _ in call_sites(fi, "self.flush")}
+    cf = {n.id for n, _ in call_sites(fi, "self.request.connection.finish")}
+
+    def t2(n, val):
+        flushed, done = val
+        if n.id in fl:
+            flushed = True
+        if n.id in cf:
+            done = done + 1 if flushed else -99
+        return (flushed, min(done, 2))
+
+    seen2 = explore(cfg, (False, 0), t2, lambda t: False, follow_exc=False)
+    for _f, (flushed, done) in sorted(seen2.get(cfg.exit.id, ()), key=repr):
+        ck.ob("C02.finish-order", fi, fi.node, flushed and done == 1, "every normal path through finish() flushes and then completes the connection exactly once (flushed=%s, connection.finish=%s)" % (flushed, done),
+              construct="finish path: flushed=%s connection.finish count=%s" % (flushed, done))
+
+
+def _resets_buffer(n):
+    """The statement leaves self._write_buffer empty (``= []`` — also as one element of a tuple assignment — or ``.clear()``)."""
+    if n.kind != "stmt":
+        return False
+    st = n.ast
+    if isinstance(st, (ast.Assign, ast.AnnAssign)) and st.value is not None:
+        tgts = st.targets if isinstance(st, ast.Assign) else [st.target]
+        for t in tgts:
+            if q.dotted(t) == WB and isinstance(st.value, ast.List) and not st.value.elts:
+                return True
+            if isinstance(t, (ast.Tuple, ast.List)) and isinstance(st.value, (ast.Tuple, ast.List)) and len(t.elts) == len(st.value.elts):
+                for x, v in zip(t.elts, st.value.elts):
+                    if q.dotted(x) == WB and isinstance(v, ast.List) and not v.elts:
+                        return True
+    return any(q.is_call(c, WB + ".clear") for c in q.calls(st))
+
+
+def check_buffer_consumed(ck):
+    """flush(): what is sent comes from the write buffer, and the buffer is emptied
+    (before the data is handed on) on every path, so a chunk is sent exactly once."""
+    fi = ck.func(WEB, RH + ".flush")
+    cfg = fi.cfg
+    facts = event_facts(fi, {"reset": _resets_buffer}, cond_facts=False)
+    derived = tainted_names(fi, [WB])
+    n = 0
+    for node, c in call_sites(fi, CONNECTION + ".write_headers") + call_sites(fi, CONNECTION + ".write"):
+        n += 1
+        a = q.arg(c, 2, "chunk") if q.call_attr(c) == "write_headers" else q.arg(c, 0, "chunk")
+        ck.ob("C02.buffer-consumed", fi, c, ("@reset", True) in facts[node.id], "the write buffer was emptied on every path before its content is handed to the connection", construct="buffer not emptied before writing: " + q.call_attr(c))
+        ck.ob("C02.buffer-consumed", fi, c, a is not None and mentions(a, derived), "the data handed to the connection is what was taken out of the write buffer", construct="written data not taken from the write buffer: " + q.call_attr(c))
+    ck.floor("C02.buffer-consumed", n, 2, "connection writes in flush")
+    ck.ob("C02.buffer-consumed", fi, fi.node, ("@reset", True) in facts[cfg.exit.id], "on every normal path flush() leaves the write buffer empty", construct="write buffer not emptied on some path")
+    # the buffer is read before it is emptied (otherwise the data is lost)
+    k = 0
+    for node in cfg.stmt_nodes(lambda m: m.kind in ("stmt", "test", "for") and any(isinstance(x, ast.Attribute) and isinstance(x.ctx, ast.Load) and q.dotted(x) == WB for r in ([m.ast] if m.kind != "for" else [m.ast.iter]) for x in q.walk_local(r))):
+        k += 1
+        ck.ob("C02.buffer-consumed", fi, node.ast if node.kind != "for" else node.ast.iter, ("@reset", True) not in facts[node.id], "the buffer is read before it is emptied")
+    ck.ob("C02.buffer-consumed", fi, fi.node, k >= 1, "flush reads the write buffer", construct="flush does not read the write buffer")
+
+
 # ---------------------------------------------------------------------------
 # F. RequestHandler.flush
 
@@ -755,7 +924,7 @@ def check_handler_flush(ck):
                     obs.append(("w", c, env.get(HW, UNK), try_fold(a, env) if a is not None else None))
                 return None
 
-            init = {METHOD: method, HW: hw, "@wh": 0, "@w": 0}
+            init = {METHOD: method, HW: hw, "@wh": 0, "@w": 0, "@resolve": make_resolver(ck.repo, WEB, RH)}
             states = peval(fi.cfg, init, hook=hook, known_self_methods=effects, track=lambda t: True)
             label = "method=%s headers_written=%s" % (method, hw)
             for kind, c, hwv, data in obs:
@@ -789,17 +958,23 @@ def run(ck):
     ck.rule("C02.close-before-raise", "_format_chunk/finish close the stream before raising HTTPOutputError")
     ck.rule("C02.chunk-format", "_format_chunk: hex size CRLF data CRLF, only when chunking and only for non-empty data; non-empty data is never left unframed while chunking")
     ck.rule("C02.body-through-guard", "HTTP1Connection hands variable data to stream.write only in write()/write_headers() and the body only through _format_chunk")
+    ck.rule("C02.fixed-writes", "_read_message writes fixed status lines only in server mode, and an interim 1xx only while the final response is not yet complete")
     ck.rule("C02.short-body", "HTTP1Connection.finish: a response with declared bytes missing is not marked finished (stream closed, error raised), a complete one is")
     ck.rule("C02.terminator", "HTTP1Connection.finish: the last-chunk marker is written exactly when the body is chunk-coded (and the stream open), and nothing else")
     ck.rule("C02.finish-content-length", "RequestHandler.finish: an unflushed body-capable response gets Content-Length = byte length of the unflushed buffer; flushed before connection.finish()")
     ck.rule("C02.finish-bodiless", "RequestHandler.finish: for 1xx/204/304 no Content-Length is computed and the buffer is empty (cleared when finish substitutes 304)")
+    ck.rule("C02.finish-order", "RequestHandler.finish buffers its chunk before the buffer is hashed/measured/flushed, and completes the connection exactly once after the flush")
+    ck.rule("C02.buffer-consumed", "RequestHandler.flush removes from the write buffer what it sends")
     ck.rule("C02.headers-once", "RequestHandler.flush: the header block is emitted exactly once, with _headers_written set before; later flushes write body only")
     ck.rule("C02.head-discard", "RequestHandler.flush: for HEAD the chunk is emptied on both branches")
     check_write_headers(ck)
     check_format_chunk(ck)
     check_stream_writes(ck)
+    check_fixed_writes(ck)
     check_conn_finish(ck)
     check_handler_finish(ck)
+    check_finish_order(ck)
+    check_buffer_consumed(ck)
     check_handler_flush(ck)
 
 
@@ -852,6 +1027,8 @@ MUTANTS = [
     ("decimal chunk size", _in(H1, CONN + "._format_chunk", replace_expr(lambda n: isinstance(n, ast.Constant) and n.value == "%x", lambda n: ast.Constant(value="%d"))), "C02.chunk-format"),
     ("write() bypasses _format_chunk", _in(H1, CONN + ".write", replace_expr(lambda n: q.is_call(n, "self._format_chunk"), lambda n: n.args[0])), "C02.body-through-guard"),
     ("write_headers appends the raw chunk", _in(H1, CONN + ".write_headers", replace_expr(lambda n: q.is_call(n, "self._format_chunk"), lambda n: n.args[0])), "C02.body-through-guard"),
+    ("100-continue no longer checks that the response is unfinished (seeded C02-adv1)", _in(H1, CONN + "._read_message", replace_expr(lambda n: isinstance(n, ast.BoolOp) and "100-continue" in _u(n) and "_write_finished" in _u(n), lambda n: n.values[0])), "C02.fixed-writes"),
+    ("100-continue also sent in client mode", _in(H1, CONN + "._read_message", lambda root: _expect_out_of_else(root)), "C02.fixed-writes"),
     ("last-chunk marker not written", _in(H1, CONN + ".finish", remove_stmts(lambda st: isinstance(st, ast.If) and q.dotted(st.test) == CHUNKING)), "C02.terminator"),
     ("last-chunk marker written unconditionally", _in(H1, CONN + ".finish", replace_expr(lambda n: isinstance(n, ast.Attribute) and q.dotted(n) == CHUNKING, TRUE)), "C02.terminator"),
     ("short-body check removed from finish", _in(H1, CONN + ".finish", remove_stmts(lambda st: isinstance(st, ast.If) and ECR in _u(st.test))), "C02.short-body"),
@@ -860,6 +1037,10 @@ MUTANTS = [
     ("Content-Length = number of buffered parts", _in(WEB, RH + ".finish", replace_expr(lambda n: q.is_call(n, "sum"), lambda n: parse_expr("len(self._write_buffer)"))), "C02.finish-content-length"),
     ("Content-Length only for GET", _in(WEB, RH + ".finish", replace_expr(lambda n: _is_cmp(n, ast.NotIn, "Content-Length"), lambda n: parse_expr("'Content-Length' not in self._headers and self.request.method == 'GET'"))), "C02.finish-content-length"),
     ("ETag-match 304 keeps the buffered body", _in(WEB, RH + ".finish", remove_stmts(lambda st: isinstance(st, ast.Assign) and WB in q.assigned_paths(st))), "C02.finish-bodiless"),
+    ("finish(chunk): Content-Length computed before the chunk is buffered", _in(WEB, RH + ".finish", lambda root: _write_after_cl(root)), "C02.finish-order"),
+    ("finish: connection.finish() only when something was buffered", _in(WEB, RH + ".finish", replace_stmt(lambda st: isinstance(st, ast.Expr) and _u(st) == "self.request.connection.finish()", lambda st: [ast.If(test=parse_expr("future is not None and chunk is not None"), body=[st], orelse=[])])), "C02.finish-order"),
+    ("flush keeps the flushed chunks in the buffer", _in(WEB, RH + ".flush", remove_stmts(lambda st: isinstance(st, ast.Assign) and WB in q.assigned_paths(st))), "C02.buffer-consumed"),
+    ("flush empties the buffer before reading it", _in(WEB, RH + ".flush", lambda root: _swap_join_reset(root)), "C02.buffer-consumed"),
     ("flush: HEAD chunk not discarded on first flush", _in(WEB, RH + ".flush", remove_stmts(lambda st: isinstance(st, ast.If) and "HEAD" in _u(st.test) and len(st.body) == 1 and isinstance(st.body[0], ast.Assign))), "C02.head-discard"),
     ("flush: HEAD chunk written on later flushes", _in(WEB, RH + ".flush", replace_expr(lambda n: _is_cmp(n, ast.NotEq, "HEAD"), TRUE)), ("C02.head-discard", "C02.headers-once")),
     ("flush: _headers_written never set", _in(WEB, RH + ".flush", remove_stmts(lambda st: isinstance(st, ast.Assign) and HW in q.assigned_paths(st))), "C02.headers-once"),
@@ -888,4 +1069,38 @@ def _zero_set_edit(root, edit):
             ok = edit(holder)
             st.test = holder.value
             return ok
+    return False
+
+
+def _expect_out_of_else(root):
+    """Move the Expect handling out of the server-only else branch."""
+    for node in ast.walk(root):
+        body = getattr(node, "body", None)
+        if isinstance(body, list):
+            for i, st in enumerate(body):
+                if isinstance(st, ast.If) and q.dotted(st.test) == "self.is_client" and st.orelse and any("100-continue" in _u(x) for x in st.orelse):
+                    moved = [x for x in st.orelse if "100-continue" in _u(x)]
+                    st.orelse = [x for x in st.orelse if x not in moved] or []
+                    body[i + 1:i + 1] = moved
+                    return True
+    return False
+
+
+def _write_after_cl(root):
+    body = root.body
+    for i, st in enumerate(body):
+        if isinstance(st, ast.If) and "is not None" in _u(st.test) and any("self.write" in _u(x) for x in st.body):
+            for j in range(i + 1, len(body)):
+                if isinstance(body[j], ast.If) and "_headers_written" in _u(body[j].test):
+                    body.insert(j, body.pop(i))
+                    return True
+    return False
+
+
+def _swap_join_reset(root):
+    body = root.body
+    for i, st in enumerate(body[:-1]):
+        if isinstance(st, ast.Assign) and "join(self._write_buffer)" in _u(st) and isinstance(body[i + 1], ast.Assign) and WB in q.assigned_paths(body[i + 1]):
+            body[i], body[i + 1] = body[i + 1], body[i]
+            return True
     return False
